@@ -321,6 +321,7 @@ type sentRun struct {
 	probeSpecs   []CallSpec
 	viewMaster   []int // per sentinel: index of the data node its view names as master
 	downCurrent  int
+	settledAt    []bool // per scheduler step: no internal goroutine of the client had anything left to do
 }
 
 func (sr *sentRun) sim() *sched.Sim { return sr.e.sim }
@@ -363,6 +364,49 @@ func (sr *sentRun) busy() (refreshing, held bool) {
 		held = true
 	}
 	return
+}
+
+// clientSettled reports, at a quiescent point, that none of the client's own goroutines (refresh, switch, event
+// callback, a connection being closed) has anything left to do: no refresh in flight, the mutex free, none of them
+// parked at a yield point or waiting for a lock. Workload goroutines do not count.
+func (sr *sentRun) clientSettled() bool {
+	if r, h := sr.busy(); r || h {
+		return false
+	}
+	s := sr.sim()
+	for _, id := range s.ParkedIDs() {
+		if strings.HasPrefix(id, "bg") {
+			return false
+		}
+	}
+	for _, id := range s.LockWaiterIDs() {
+		if !isTaskName(id) {
+			return false
+		}
+	}
+	return true
+}
+
+func isTaskName(id string) bool {
+	if len(id) < 2 || id[0] != 't' {
+		return false
+	}
+	for _, c := range id[1:] {
+		if c < '0' || c > '9' {
+			return false
+		}
+	}
+	return true
+}
+
+// settledAfter is the first step >= step at which the client was settled (-1 = never).
+func (sr *sentRun) settledAfter(step int) int {
+	for i := step; i >= 0 && i < len(sr.settledAt); i++ {
+		if sr.settledAt[i] {
+			return i
+		}
+	}
+	return -1
 }
 
 func (sr *sentRun) recvParked() bool {
@@ -712,6 +756,10 @@ func execSentinel(t *testing.T, plan any, out *Outcome) {
 		}
 	}
 	s.OnStep = func(s *sched.Sim) error {
+		for len(sr.settledAt) <= s.Step {
+			sr.settledAt = append(sr.settledAt, false)
+		}
+		sr.settledAt[s.Step] = sr.clientSettled()
 		for _, l := range s.Links {
 			if _, nw, _, _, _ := l.C.Stats(); nw != sr.lastW[l.ID] {
 				sr.lastW[l.ID] = nw
@@ -1150,11 +1198,20 @@ func (sr *sentRun) judge() {
 		if wantReplica {
 			need = "slave"
 		}
+		knownReplica := false
 		switch {
 		case last == nil:
 			out.violate("C23", "traffic-without-role-check", "%s (written at step %d): no ROLE answer had been received on that connection", where, ws)
 		case last.role != need:
-			out.violate("C23", "traffic-after-wrong-role", "%s (written at step %d) on the %s path: the most recent ROLE answer on that connection (received at step %d) was %q", where, ws, map[bool]string{false: "primary", true: "replica"}[wantReplica], last.delivered, last.role)
+			// The answer may have arrived while this call was already under way (it had picked its connection), or while
+			// the client was still closing the connection: only a call that started after the client had finished
+			// everything the answer made it do is judged.
+			if q := sr.settledAfter(last.delivered); q >= 0 && q < cr.rec.StartStep {
+				out.violate("C23", "traffic-after-wrong-role", "%s (call started at step %d, written at step %d) on the %s path: the most recent ROLE answer on that connection was %q, received at step %d; the client had nothing left to do from step %d on", where, cr.rec.StartStep, ws, map[bool]string{false: "primary", true: "replica"}[wantReplica], last.role, last.delivered, q)
+				knownReplica = last.role == "slave"
+			} else {
+				out.notJudged("C23:wrong-role-answer-raced-with-the-call")
+			}
 		default:
 			out.judged("C23:role-checked")
 			judged++
@@ -1171,8 +1228,8 @@ func (sr *sentRun) judge() {
 		}
 		// C21 by the role of the node, where the client knew it
 		if ex.Role == "slave" && !wantReplica {
-			if last != nil && last.role == "slave" {
-				out.violate("C21", "replica-without-opt-in", "%s: the node had answered ROLE as slave on that connection and SendToReplicas is not true for every command of the call", where)
+			if knownReplica {
+				out.violate("C21", "replica-without-opt-in", "%s: the node had answered ROLE as slave on that connection before the call started and SendToReplicas is not true for every command of the call", where)
 			} else {
 				out.notJudged("C21:role-changed-after-the-role-check")
 			}
